@@ -41,6 +41,7 @@ type Contract struct {
 	Kind     string // func, trusted, iface, extern
 	Params   []string
 	Requires []*Clause
+	Derives  []*Clause // assumed at entry of the verified function, justified by lemmas; not checked at call sites
 	Ensures  []*Clause
 	Modifies []string
 	Loops    map[int]*LoopSpec
@@ -102,10 +103,13 @@ type Specs struct {
 	Fns       map[string]*SpecFn
 	Pure      []string // package path prefixes / function names treated as no-ops
 	Files     []string
+	StrConsts map[string]string // literal text -> SMT constant name usable in theories
+	StrOrder  []string
+	Macros    map[string]*LetDef // global contract-language macros (`define`)
 }
 
 func newSpecs() *Specs {
-	return &Specs{Contracts: map[string]*Contract{}, Theories: map[string]*Theory{}, Lemmas: map[string]*Lemma{}, Records: map[string]*RecType{}, SortAlias: map[string]string{}, Fns: map[string]*SpecFn{}}
+	return &Specs{Contracts: map[string]*Contract{}, Theories: map[string]*Theory{}, Lemmas: map[string]*Lemma{}, Records: map[string]*RecType{}, SortAlias: map[string]string{}, Fns: map[string]*SpecFn{}, StrConsts: map[string]string{}, Macros: map[string]*LetDef{}}
 }
 
 func (sp *Specs) loadSpecDir(dir string) error {
@@ -256,6 +260,39 @@ func (sp *Specs) parseText(file string, lines []string, nums []int) error {
 			}
 			cur = nil
 			continue
+		case "strconst":
+			// strconst NAME "text"
+			f := strings.SplitN(rest, " ", 2)
+			if len(f) != 2 {
+				return fail(fmt.Errorf("strconst needs name and literal"))
+			}
+			txt := strings.Trim(strings.TrimSpace(f[1]), "\"")
+			sp.StrConsts[txt] = f[0]
+			sp.StrOrder = append(sp.StrOrder, txt)
+			sp.Fns[f[0]] = &SpecFn{Name: f[0], Ret: SStr}
+			cur = nil
+			continue
+		case "define":
+			j := strings.Index(rest, "=")
+			if j < 0 {
+				return fail(fmt.Errorf("define needs ="))
+			}
+			n, err := parseExpr(strings.TrimSpace(rest[j+1:]))
+			if err != nil {
+				return fail(err)
+			}
+			ld := &LetDef{Name: strings.TrimSpace(rest[:j]), Expr: n, Src: rest}
+			if k := strings.Index(ld.Name, "("); k >= 0 && strings.HasSuffix(ld.Name, ")") {
+				for _, p := range strings.Split(ld.Name[k+1:len(ld.Name)-1], ",") {
+					if strings.TrimSpace(p) != "" {
+						ld.Params = append(ld.Params, strings.TrimSpace(p))
+					}
+				}
+				ld.Name = ld.Name[:k]
+			}
+			sp.Macros[ld.Name] = ld
+			cur = nil
+			continue
 		case "pure":
 			sp.Pure = append(sp.Pure, strings.Fields(rest)...)
 			cur = nil
@@ -292,14 +329,17 @@ func (sp *Specs) parseText(file string, lines []string, nums []int) error {
 			return &Clause{Expr: n, Src: src, Where: where}, nil
 		}
 		switch word {
-		case "requires", "ensures":
+		case "requires", "ensures", "derive":
 			c, err := mk(rest)
 			if err != nil {
 				return fail(err)
 			}
-			if word == "requires" {
+			switch word {
+			case "requires":
 				cur.Requires = append(cur.Requires, c)
-			} else {
+			case "derive":
+				cur.Derives = append(cur.Derives, c)
+			default:
 				cur.Ensures = append(cur.Ensures, c)
 			}
 		case "let":
@@ -604,6 +644,12 @@ func (sp *Specs) theoryTextMode(names []string, replay bool) (string, error) {
 		out.WriteString(t.Text)
 		return nil
 	}
+	if _, ok := sp.Theories["base"]; ok {
+		if err := visit("base"); err != nil {
+			return "", err
+		}
+	}
+	out.WriteString(";;STRDECLS;;\n")
 	for _, n := range names {
 		if err := visit(n); err != nil {
 			return "", err
